@@ -3,6 +3,7 @@ use crate::minerlife::*;
 use crate::util::*;
 use fvm_shared::econ::TokenAmount;
 use mcx::Bounds;
+use num_traits::Zero;
 
 pub fn scenario_regime(tier: &str, poor: bool) -> (Life, Bounds) {
     let th = tier_is_thorough(tier);
@@ -62,11 +63,94 @@ pub fn scenario(tier: &str) -> (Life, Bounds) {
     scenario_regime(tier, false)
 }
 
+/// The termination-fee function over a boundary grid (pledge x sector age x fault fee): the
+/// walks above never make the age-dependent part decisive (with genesis-sized network power the
+/// fault-fee floor dominates), so the pure function is enumerated directly against the
+/// independent FIP-0098 recomputation, its bounds and its monotonicity in the age.
+pub fn fee_point(ip: &TokenAmount, age: i64, ff: &TokenAmount) -> Result<TokenAmount, String> {
+    let got = fil_actor_miner::pledge_penalty_for_termination(ip, age, ff);
+    let want = crate::penalties::term_fee(ip, age, ff);
+    if got != want {
+        return Err(format!("termination fee for pledge {ip}, age {age}, fault fee {ff}: implementation {got}, FIP-0098 recomputation {want}"));
+    }
+    if !crate::penalties::term_fee_in_bounds(&got, ip, ff) {
+        return Err(format!("termination fee {got} for pledge {ip}, age {age}, fault fee {ff} outside [2% of pledge, max(8.5% of pledge, 105% of the fault fee)]"));
+    }
+    Ok(got)
+}
+
+fn fee_grid(run: &mut mcx::evidence::Run) {
+    let day = crate::penalties::EPOCHS_IN_DAY;
+    let ips: Vec<TokenAmount> = [0u64, 1, 99, 100, 1_000_000_007].iter().map(|x| TokenAmount::from_atto(*x)).chain([1u64, 2, 1000].iter().map(|x| TokenAmount::from_whole(*x))).collect();
+    let ages = [0i64, 1, day - 1, day, 70 * day, 140 * day - 1, 140 * day, 140 * day + 1, 540 * day];
+    let mut n = 0u64;
+    let mut distinct = std::collections::BTreeSet::new();
+    for ip in &ips {
+        let ffs: Vec<TokenAmount> = vec![
+            TokenAmount::zero(),
+            TokenAmount::from_atto(1),
+            (ip * 2u32).div_floor(105u32),
+            (ip * 2u32).div_floor(100u32),
+            (ip * 85u32).div_floor(1050u32),
+            (ip * 85u32).div_floor(1000u32),
+            ip.clone(),
+            ip * 31u32,
+        ];
+        for ff in &ffs {
+            let mut prev: Option<TokenAmount> = None;
+            for age in ages {
+                n += 1;
+                let r = fee_point(ip, age, ff).and_then(|fee| {
+                    if let Some(p) = &prev
+                        && fee < *p
+                    {
+                        return Err(format!("termination fee decreases with the sector's age: {p} then {fee} at age {age} (pledge {ip}, fault fee {ff})"));
+                    }
+                    Ok(fee)
+                });
+                match r {
+                    Ok(fee) => {
+                        distinct.insert(fee.atto().to_string());
+                        prev = Some(fee);
+                    }
+                    Err(msg) => {
+                        if run.extra_violations.len() < 8 {
+                            run.extra_violations.push(mcx::ViolationReport {
+                                scenario: "c15/fee-grid".into(),
+                                base: "pure function".into(),
+                                path: vec![mcx::PathStep { action: serde_json::json!({"pledge": ip.atto().to_string(), "age": age, "fault_fee": ff.atto().to_string()}), faults: vec![] }],
+                                message: msg,
+                            });
+                        }
+                    }
+                }
+            }
+        }
+    }
+    run.coverage_extra.insert("termination_fee_grid".into(), serde_json::json!({"points": n, "distinct_fees": distinct.len(), "pledges": ips.len(), "ages": ages.len(), "fault_fees_per_pledge": 8}));
+}
+
+pub fn replay_fee_point(v: &serde_json::Value) -> ! {
+    let a = &v["path"][0]["action"];
+    let big = |k: &str| TokenAmount::from_atto(a[k].as_str().unwrap().parse::<fvm_shared::bigint::BigInt>().unwrap());
+    match fee_point(&big("pledge"), a["age"].as_i64().unwrap(), &big("fault_fee")) {
+        Err(m) => {
+            println!("REPRODUCED property=C15 {m}");
+            std::process::exit(1)
+        }
+        Ok(_) => {
+            println!("NOT-REPRODUCED: the recorded point agrees on this tree (monotonicity is only judged by the full grid)");
+            std::process::exit(0)
+        }
+    }
+}
+
 pub fn run(tier: &str) -> ! {
     let mut run = mcx::evidence::Run::new("C15", tier, "model_checking");
     run.assumptions = vec![
         "SMALL policy; fee magnitudes are recomputed from the reward/power estimates the implementation itself passed to the miner (not from an independent economic model); the FIP-0098 termination fee formula and its 2% / cap bounds are recomputed independently".into(),
         "funds regimes: a rich miner (1000 FIL available) and a poor miner that owns only its vesting creation deposit".into(),
+        "the termination-fee function is additionally enumerated as a pure function over a grid of 8 pledges x 9 sector ages x 8 fault fees (agreement with the FIP-0098 recomputation, bounds, monotone in age)".into(),
         "fault class F1: the reward transfer to the reporter of a consensus fault / disputed PoSt is made to fail".into(),
     ];
     for poor in [false, true] {
@@ -75,5 +159,6 @@ pub fn run(tier: &str) -> ! {
     }
     let (scn, b) = scenario_big(tier);
     run.add(mcx::explore(&scn, &b));
+    fee_grid(&mut run);
     run.finish()
 }
